@@ -662,3 +662,65 @@ add(('C19', 'C20'), 'twin', 'cache-rename-local', [(P, '''    cls = type(value)
     if cls not in _cnamedtuple_fieldnames_by_class:''', '''    cls = type(value)
     known = _cnamedtuple_fieldnames_by_class
     if cls not in _cnamedtuple_fieldnames_by_class:''')])
+
+# ----------------------------------------------------------------------------- C16
+add('C16', 'breaker', 'pop-unguarded-again', [(C, '''                if isinstance(sdoc.value, Token):
+                    try:
+                        colorstack.pop()
+                    except IndexError:
+                        continue
+
+                    if colorstack:
+                        stream.write(str(colorstack[-1]))
+                    else:
+                        stream.write(str(colorful.reset))''', '''                try:
+                    colorstack.pop()
+                except IndexError:
+                    continue
+
+                if colorstack:
+                    stream.write(str(colorstack[-1]))
+                else:
+                    stream.write(str(colorful.reset))''')], 'C16.b')
+add('C16', 'breaker', 'token-missing-from-table', [(C, '    Token.STRING_AFFIX: token.String.Affix,\n', '')], 'C16.a')
+add('C16', 'breaker', 'new-token-without-style', [('prettyprinter/syntax.py', '    COMMENT_SINGLE = 14\n', '    COMMENT_SINGLE = 14\n    NAME_CLASS = 15\n'), (P, '''def identifier(s):
+    return annotate(Token.NAME_FUNCTION, s)''', '''def identifier(s):
+    return annotate(Token.NAME_CLASS, s)''')], 'C16.a')
+add('C16', 'breaker', 'underline-again', [(C, 'c &= colorful.underlined', 'c &= colorful.underline')], 'C16.e')
+add('C16', 'breaker', 'bg-only-accessor-again', [(C, "accessor += '_on_prettyprinterCurrBg' if accessor else 'on_prettyprinterCurrBg'", "accessor += '_on_prettyprinterCurrBg'")], 'C16.e')
+add('C16', 'breaker', 'palette-name-mismatch', [(C, "accessor = 'prettyprinterCurrFg'", "accessor = 'prettyprinterFg'")], 'C16.e')
+add('C16', 'breaker', 'no-final-reset', [(C, '''    if colorstack:
+        stream.write(str(colorful.reset))
+''', '')], 'C16.c')
+add('C16', 'breaker', 'style-not-from-reset', [(C, '    c = colorful.reset\n', '    c = colorful.bold\n')], 'C16.d')
+add('C16', 'breaker', 'pop-writes-reset-always', [(C, '''                    if colorstack:
+                        stream.write(str(colorstack[-1]))
+                    else:
+                        stream.write(str(colorful.reset))''', '''                    stream.write(str(colorful.reset))''')], 'C16.b')
+add('C16', 'breaker', 'colored-renderer-strips', [(C, 'sdoc_line[last_text_sdoc_idx] = last_text_sdoc.rstrip()', 'sdoc_line[last_text_sdoc_idx] = last_text_sdoc.strip()')], 'C16.f')
+add('C16', 'breaker', 'colored-renderer-text-upper', [(C, '''            if isinstance(sdoc, str):
+                stream.write(sdoc)''', '''            if isinstance(sdoc, str):
+                stream.write(sdoc.expandtabs())''')], 'C16.f')
+add('C16', 'breaker', 'push-writes-nothing', [(C, '''                    colorstack.append(color)
+                    stream.write(str(color))''', '''                    colorstack.append(color)''')], 'C16.b')
+add('C16', 'breaker', 'comment-annotation-plain-string', [(P, "    return annotate(CommentAnnotation(comment_text), doc)", "    return annotate(('comment', comment_text), doc)")], 'C16.a')
+add('C16', 'twin', 'pop-guard-early-continue', [(C, '''                if isinstance(sdoc.value, Token):
+                    try:
+                        colorstack.pop()
+                    except IndexError:
+                        continue
+
+                    if colorstack:
+                        stream.write(str(colorstack[-1]))
+                    else:
+                        stream.write(str(colorful.reset))''', '''                if not isinstance(sdoc.value, Token):
+                    continue
+                try:
+                    colorstack.pop()
+                except IndexError:
+                    continue
+
+                if colorstack:
+                    stream.write(str(colorstack[-1]))
+                else:
+                    stream.write(str(colorful.reset))''')])
